@@ -832,6 +832,12 @@ class Analysis:
             return None
         # model rows
         r = self.policy.model(self, frame, ev, path)
+        if isinstance(r, tuple) and r and r[0] == "DIVERGE":
+            ev.idx = next(self.eng.ids)
+            path.calls.append(ev)
+            path.end = "panic"
+            path.panic = r[1]
+            return None
         if r is not None:
             ev.result = r
             ev.idx = next(self.eng.ids)
@@ -981,6 +987,9 @@ def std_model(an, frame, ev, path):
         if isinstance(a[0], tuple) and a[0][0] == "agg" and a[0][1] == "std::option::Option":
             if a[0][3] == "Some":
                 return a[0][4][0]
+    r = _option_rows(an, frame, ev, path, d, a)
+    if r is not None:
+        return r
     if d == "std::ptr::from_ref":
         return a[0]
     if st and st.startswith("std::marker::PhantomData<"):
@@ -1000,6 +1009,91 @@ def std_model(an, frame, ev, path):
         return _unref(frame, a[0])
     if d == "std::ops::Deref::deref" and st and st.startswith("&"):
         return _unref(frame, a[0])
+    return None
+
+
+def _some(x):
+    return ("agg", "std::option::Option", 1, "Some", (x,))
+
+
+NONE = ("agg", "std::option::Option", 0, "None", ())
+
+
+def _is_opt(t):
+    return isinstance(t, tuple) and t[0] == "agg" and t[1] == "std::option::Option"
+
+
+def _call_closure(an, frame, clo, args, path):
+    """evaluate a closure value on argument terms; returns the single return term, ('PANIC', info) or None"""
+    if not (isinstance(clo, tuple) and clo[0] == "closure"):
+        return None
+    bs = an.eng.by_path.get(clo[1])
+    if not bs or frame.depth >= an.eng.max_depth:
+        return None
+    body = bs[0]
+    self_ty = body["locals"][1]["ty"] if len(body["locals"]) > 1 else ""
+    env_arg = ("ref", False, ("val", clo)) if self_ty.startswith("&") else clo
+    sub = Analysis(an.eng, an.policy)
+    try:
+        outs = sub.run(body, [env_arg] + list(args), frame.depth + 1)
+    except Budget:
+        return None
+    if outs and all(o.end == "panic" for o in outs):
+        return ("PANIC", outs[0].panic)
+    rets = [o for o in outs if o.end == "return"]
+    if len(rets) == 1 and len(outs) == 1 and not rets[0].guards:
+        path.calls.extend(rets[0].calls)
+        return rets[0].ret
+    return None
+
+
+def _option_rows(an, frame, ev, path, d, a):
+    """std rows that fold on *known* Option / bool values (used by constant propagation of the codec layer)"""
+    m = d.split("::")[-1]
+    if d.startswith("core::bool::<impl bool>::") or d.startswith("std::bool::<impl bool>::"):
+        if is_int(a[0]):
+            if m == "then_some":
+                return _some(a[1]) if a[0][1] else NONE
+            if m == "then":
+                if not a[0][1]:
+                    return NONE
+                r = _call_closure(an, frame, a[1], [], path)
+                return _some(r) if r is not None and r[0] != "PANIC" else None
+        return None
+    if not d.startswith("std::option::Option::<T>::") or not a or not _is_opt(a[0]):
+        return None
+    o = a[0]
+    some = o[3] == "Some"
+    x = o[4][0] if some else None
+    if m == "is_some":
+        return I(1 if some else 0, "bool")
+    if m == "is_none":
+        return I(0 if some else 1, "bool")
+    if m == "ok_or":
+        return ("agg", "std::result::Result", 0, "Ok", (x,)) if some else ("agg", "std::result::Result", 1, "Err", (a[1],))
+    if m == "unwrap_or":
+        return x if some else a[1]
+    if m in ("copied", "cloned") and some:
+        return _some(_unref(frame, x) if isinstance(x, tuple) and x[0] == "ref" else x)
+    if m in ("copied", "cloned") and not some:
+        return NONE
+    if m == "map":
+        if not some:
+            return NONE
+        r = _call_closure(an, frame, a[1], [x], path)
+        return _some(r) if r is not None and r[0] != "PANIC" else None
+    if m == "ok_or_else":
+        if some:
+            return ("agg", "std::result::Result", 0, "Ok", (x,))
+        r = _call_closure(an, frame, a[1], [], path)
+        return ("agg", "std::result::Result", 1, "Err", (r,)) if r is not None and r[0] != "PANIC" else None
+    if m == "unwrap_or_else":
+        if some:
+            return x
+        r = _call_closure(an, frame, a[1], [], path)
+        if r is not None and r[0] == "PANIC":
+            return ("DIVERGE", r[1])
+        return r
     return None
 
 
